@@ -55,6 +55,10 @@ def _build(sym, NL, NR, dom, compound, ragged, spelling, prefix, missing):
         lh = ['a', 'k'] + (['j'] if compound else [])
         rh = ['b', 'k'] + (['j'] if compound else [])
         kw = dict(key=('k', 'j') if compound else 'k') if spelling == 'key' else {}
+        if spelling == 'keyrev':
+            # compound key listed against the column order of both tables (same relation, same output header)
+            assert compound
+            kw = dict(key=('j', 'k'))
     if prefix is True or prefix == 'both':
         kw.update(lprefix='l_', rprefix='r_')
     elif prefix == 'left':
